@@ -467,7 +467,57 @@ def evaluate(case):
     return out, ("ok:merged" if merged else "ok:identity") + ":" + how, merged
 
 
+def evaluate_empty(case):
+    """A 1D histogram without bins (emptied slice, empty adaptive histogram, explicit (0, 2) bins): any amount >= 1 and any
+    min_frequency give a histogram that still has no bins, nothing else changes; and integral amounts of any numeric type."""
+    from physt import h1
+    from physt.binnings import StaticBinning
+    from physt.types import Histogram1D
+
+    how = case["how"]
+    if how == "slice":
+        h = h1(np.array([0.5, 1.5, 5.0]), np.array([0.0, 1.0, 2.0]))[2:2]
+    elif how == "adaptive":
+        h = h1(None, "fixed_width", bin_width=1.0, adaptive=True)
+    elif how == "explicit":
+        h = Histogram1D(StaticBinning(np.zeros((0, 2))))
+    else:
+        h = h1(np.arange(300) + 0.5, np.arange(301.0))  # long axis: small numpy integer amounts
+    arg = case["arg"]
+    kw = {"min_frequency": 1.0} if arg == "min_frequency" else {}
+    amount = {"1": 1, "2": 2, "np.uint8(2)": np.uint8(2), "np.int8(3)": np.int8(3), "np.int64(2)": np.int64(2), "2.0": 2.0, "np.float64(4.0)": np.float64(4.0),
+              "min_frequency": None}[arg]
+    before = fsnap(h)
+    n0 = h.bin_count
+    total0 = float(h.total)
+    res = call(lambda: h.merge_bins(amount, inplace=case["inplace"], **kw))
+    sig = f"empty_or_typed|{how}|{arg if how == 'long' else ('amount' if amount is not None else 'min_frequency')}"
+    out = []
+    either = arg in ("2.0", "np.float64(4.0)")  # integral floats: outside 'amount' as stated, whatever happens must be right
+    if not res.ok:
+        if not either:
+            out.append(V("must_succeed", f"{sig}|{type(res.exc).__name__}", case, "merged histogram", res.describe()))
+        elif fsnap(h) != before:
+            out.append(V("refused_unchanged", f"{sig}|refused_but_changed", case, before, fsnap(h)))
+        return out, "refused", how == "long"
+    r = h if case["inplace"] else res.value
+    if how != "long":
+        if r.bin_count != 0 or float(r.total) != 0:
+            out.append(V("merge", f"{sig}|bins_appeared", case, 0, [r.bin_count, float(r.total)]))
+    else:
+        k = int(amount) if amount is not None else None
+        if k is not None:
+            want = -(-n0 // k)
+            if r.bin_count != want or float(r.total) != total0 or float(r.bins[0][0]) != 0.0 or float(r.bins[-1][1]) != 300.0:
+                out.append(V("merge", f"{sig}|runs", case, [want, total0], [r.bin_count, float(r.total)]))
+    if not case["inplace"] and fsnap(h) != before:
+        out.append(V("original_unchanged", f"{sig}|original_changed", case, before, fsnap(h)))
+    return out, "ok:merged", how == "long"
+
+
 def replay(case):
+    if "how" in case:
+        return evaluate_empty(case)[0]
     return evaluate(case)[0]
 
 
@@ -765,7 +815,7 @@ def units(tier, seed):
             bases.append({"fam": "amount", "shape": shape})
         elif (thorough and (long_axes == 1 or shape in THOROUGH_3D_EXTRA)) or (not thorough and shape in QUICK_3D_EXTRA):
             bases.append({"fam": "amount", "shape": shape, "full": False})
-    us = []
+    us = [{"fam": "empty_or_typed"}]
     for b in bases:
         us.extend(split(b, thorough))
     return us
@@ -773,6 +823,18 @@ def units(tier, seed):
 
 def run_unit(unit, ctx):
     p = Partial()
+    if unit["fam"] == "empty_or_typed":
+        case = None
+        for how in ("slice", "adaptive", "explicit", "long"):
+            for arg in ("1", "2", "np.uint8(2)", "np.int8(3)", "np.int64(2)", "2.0", "np.float64(4.0)", "min_frequency"):
+                for inplace in (False, True):
+                    case = {"how": how, "arg": arg, "inplace": inplace}
+                    vs, label, nt = evaluate_empty(case)
+                    p.ev(True)
+                    p.outcome("empty_or_typed:" + label)
+                    p.extend(vs)
+        p.sample(case)
+        return p
     pick = 7 + 13 * (ctx.seed % 5)
     sampled = False
     for k, case in enumerate(generate(unit, ctx.thorough)):
